@@ -163,6 +163,34 @@ Theorem C19_dataset_total : forall specs inputs outputs li,
 Proof. exact dataset_vars_total. Qed.
 Print Assumptions C19_dataset_total.
 
+(* the dataset-level clauses of the property with NO `... = Ok _` hypothesis: for MapSpecs that are listed in a
+   topological order, name the dimensions consistently and only index deliverable arrays, the labelling model
+   returns a dataset in which every computed output is a labelled array with its declared axes as dims, every
+   visible one-dimensional array carried to it along k labels exactly (k,), and zipped ones share ONE
+   coordinate named by the ":"-join of its levels *)
+Theorem C19_dataset_labels_total : forall specs inputs outputs li,
+  NoDup (out_names specs) -> topo_specs specs = true -> consistent (all_aspecs specs) = true ->
+  forallb wf_aspec (all_aspecs specs) = true ->
+  (forall m a, In m specs -> In a (outs m) -> no_colon_axes a) ->
+  arrays_known specs inputs outputs ->
+  exists ds, dataset_vars specs inputs outputs li = Ok ds
+    /\ (forall o ms, computed_by specs o = Some ms -> In o outputs ->
+          exists a, In a (ds_arrays ds) /\ da_name a = o
+                    /\ exists asp, In asp (outs ms) /\ aname asp = o /\ da_dims a = indices asp)
+    /\ (forall o ms k x, computed_by specs o = Some ms -> In o outputs ->
+          one_dimensional specs x -> visible inputs li x = true ->
+          In x (carried (trace_fuel specs) specs o k) ->
+          (exists c, In c (ds_coords ds) /\ co_axes c = [k] /\ In x (co_srcs c))
+          /\ (forall c, In c (ds_coords ds) -> In x (co_srcs c) -> co_axes c = [k]))
+    /\ (forall o ms k x z, computed_by specs o = Some ms -> In o outputs ->
+          one_dimensional specs x -> visible inputs li x = true ->
+          one_dimensional specs z -> visible inputs li z = true ->
+          In x (carried (trace_fuel specs) specs o k) -> In z (carried (trace_fuel specs) specs o k) -> x <> z ->
+          exists c, In c (ds_coords ds) /\ co_axes c = [k] /\ In x (co_srcs c) /\ In z (co_srcs c)
+                    /\ co_name c = join (s ":") (co_srcs c)).
+Proof. exact dataset_labels_total. Qed.
+Print Assumptions C19_dataset_labels_total.
+
 (* selecting by coordinate value.  `sel_label` is the specification of label based selection on a
    one-dimensional coordinate (look the value up, slice the variable at the position found); the lookup
    itself is xarray's (observed by the harness on every coordinate value, not modelled).
